@@ -173,8 +173,11 @@ static int cmdDet(int argc, char **argv) {
   auto all = [&](int fill) {
     fillnew::set(fill);
     Out r;
+    fillnew::poisonStack(fill < 0 ? 0x3C : fill);
     Compile b = compile(text, xcmp::DriverAction::EMIT_BINARY, "xtool.det.bin");
+    fillnew::poisonStack(fill < 0 ? 0x3C : fill);
     Compile l = compile(text, xcmp::DriverAction::EMIT_ASM, "xtool.det.bin2");
+    fillnew::poisonStack(fill < 0 ? 0x3C : fill);
     Compile t = compile(text, xcmp::DriverAction::EMIT_TREE, "xtool.det.bin3");
     fillnew::set(-1);
     r.ok = b.ok; r.file = b.file; r.listing = l.text; r.tree = t.text; r.err = b.errWhat;
